@@ -109,6 +109,17 @@ CLAIMED.update({
         note="Requests carry either validators or a Range (the property does not define their combination). HEAD with Range, other range units, weak validators in If-Match / If-Range and inner whitespace are grey areas: both outcomes accepted.",
         technique="deterministic simulation: write/revalidate histories on a simulated clock x body chunking / seekability / abort schedules, declarative reference oracle",
     ),
+    "C08": dict(
+        category="exploration",
+        text="One run = one history of public operations (27 kinds on the MultiDict family, 38 on Headers, 15 on HeaderSet; every documented constructor / update argument form) on real containers, "
+        "compared after every step - all public reads of every live object - with executable reference models (insertion-ordered multimap; ordered pairs with case-folded keys; case-insensitive "
+        "ordered set). Views are functions of the models of what they wrap (CombinedMultiDict over the first two dicts, EnvironHeaders over an environ the history mutates). copy / copy.copy / "
+        "deepcopy / pickle are operations inside the history (restart from durable state): the copy must read like the original, be independent afterwards, agree on == and hash; immutable "
+        "variants must reject every mutator with TypeError and stay unchanged; HeaderSet.on_update must fire iff the content changed; converters that raise are injected.",
+        design_ref="3.5",
+        note="Sampled histories, not exhaustive enumeration. Keys with an empty value list are treated as present-without-values (deepcopy of such a dict is skipped). Known finding D3 (CombinedMultiDict ==) is recorded.",
+        technique="deterministic simulation: seeded operation histories incl. copy/pickle 'restart' against executable reference models, all reads compared after every step",
+    ),
 })
 
 NOT_APPLICABLE = {
